@@ -5,7 +5,7 @@
      * a cross-version copy keeps the ElementType of its source although the name resolves to another type in the version
        of the target file (known finding C07-copy-keeps-source-type). *)
 From AV Require Import Base.Bytes Base.Outcome Hash.HashModel Spec.SpecOps Spec.SpecReal Tree.Heap Tree.Ops Tree.Script Tree.Inv Tree.Range
-  Tree.SpecWF Tree.SpecWFReal.
+  Tree.SpecWF Tree.SpecWFReal Tree.Project.
 Open Scope list_scope.
 Open Scope N_scope.
 
@@ -85,3 +85,18 @@ Qed.
 (* the same child list was in order when it was built (version = latest) *)
 Lemma order_history_was_ordered : Ordered RT real_root REAL_LATEST [Some 1043].
 Proof. vm_compute. reflexivity. Qed.
+
+(* non-vacuity of the hypothesis of the reload bridge: the model with an empty root element is node-wise OK, and projects *)
+Definition w_root_only : world :=
+  mkWorld (fun i => if i =? 0 then Some (mkNode (PModel 0) 4057 real_root [] [] [0] None) else None) 1
+          [mkFile 0 [] REAL_LATEST None] [mkModel 0 [0] [] []].
+
+Lemma worldok_nonvacuous check_fn : WorldOK RT check_fn REAL_LATEST w_root_only (Some 0) /\
+  exists t, proj 2 w_root_only (Some 0) 0 = Some t.
+Proof.
+  split; [|eexists; vm_compute; reflexivity].
+  intros i n Hi. unfold w_root_only in Hi. cbn [w_nodes] in Hi. destruct (i =? 0); [|discriminate]. injection Hi as <-.
+  unfold node_ok. cbn [n_attrs n_content n_type map].
+  split; [constructor|]. split; [intros d []|]. split; [exists []; split; [reflexivity|vm_compute; reflexivity]|].
+  split; [intros c cn []|]. intros H. vm_compute in H. discriminate.
+Qed.
